@@ -5,6 +5,7 @@ import (
 	"fmt"
 	"net/http"
 	"net/url"
+	"slices"
 	"strings"
 	"testing"
 
@@ -173,13 +174,25 @@ func (c *c11) raw(ch *kernel.Chooser) string {
 		ru, _ := url.Parse(redirect)
 		tu, _ := url.Parse(ar.Target)
 		if ru != nil && tu != nil {
-			for k, vs := range ru.Query() {
+			rq := ru.Query()
+			for _, k := range kernel.SortedKeys(rq) {
+				vs := rq[k]
+				if len(vs) > 1 {
+					c.o.Probe("registered-uri-repeats-a-parameter")
+				}
+				got := tu.Query()[k]
 				if ar.Mode == "query" {
-					if got := p[k]; len(got) == 0 || got[0] != vs[0] {
-						c.viol("preexisting-query", site, "%s: parameter %s=%q of the redirect URI did not survive (got %v)", desc, k, vs[0], got)
+					got = p[k]
+				}
+				// every value the client registered, as often as it registered it (a name may occur more than once)
+				rest := append([]string(nil), got...)
+				for _, v := range vs {
+					i := slices.Index(rest, v)
+					if i < 0 {
+						c.viol("preexisting-query", site, "%s: parameter %s=%q of the redirect URI did not survive (got %v, target %q)", desc, k, v, got, ar.Target)
+						break
 					}
-				} else if tu.Query().Get(k) != vs[0] {
-					c.viol("preexisting-query", site, "%s: parameter %s=%q of the redirect URI did not survive (target %q)", desc, k, vs[0], ar.Target)
+					rest = slices.Delete(rest, i, i+1)
 				}
 			}
 			if tu.Scheme != ru.Scheme || tu.Host != ru.Host || tu.Path != ru.Path {
